@@ -241,6 +241,18 @@ func richAxes(legacy bool) []axis {
 
 	add("sets", "router.domainSets", domainSetLetters()...)
 	add("sets", "router.routes.0.toDomainSets", omitted, L{"ds0"}, L{"dsX"})
+	// GeoIP criteria: no database exists in this image, so only "criterion present, database absent" can be
+	// decided - and that must be refused at load for each of the three criteria (the expectation criterion
+	// comes with the domain criterion it needs, so that no other guard answers for it)
+	add("sets", "router.routes.0.fromGeoIPCountries", omitted, L{"US"})
+	add("sets", "router.routes.0.toGeoIPCountries", omitted, L{"US"})
+	addF("sets", "router.routes.0.toMatchedDomainExpectedGeoIPCountries(+toDomains)", func(doc J, v any) {
+		if v == omitted {
+			return
+		}
+		setPath(doc, "router.routes.0.toMatchedDomainExpectedGeoIPCountries", v)
+		setPath(doc, "router.routes.0.toDomains", L{"example.com"})
+	}, omitted, L{"US"})
 	add("sets", "router.routes", routeListLetters()...)
 	return ax
 }
